@@ -81,6 +81,13 @@ def gen_scenario(rng: random.Random, focus: str = "any") -> dict:
                     client.insert(0, ["POST", "/api/save-state"])
             else:
                 sc["save_condition"] = [False] * rng.randint(0, 5) + ["raise"]
+    if sc.get("faults") and not sc.get("timed") and rng.random() < 0.5:
+        # nobody sends a command for a while after the scripted ones: a system that keeps going with a
+        # dead thread is then seen to keep going (the final shutdown request comes several ticks later)
+        cl = sc["client"]
+        if rng.random() < 0.5 and not any(c[1] == "/api/pause" for c in cl if c[0] == "POST"):
+            cl.insert(rng.randrange(len(cl)), ["POST", "/api/pause"])
+        cl.insert(len(cl) - 1, ["linger", rng.choice([4, 6])])
     if focus == "C02" and rng.random() < 0.5:
         sc["timed"] = True
         sc["pause_timeout"] = rng.choice([5.0, 20.0])
@@ -128,7 +135,11 @@ def gen_scenario(rng: random.Random, focus: str = "any") -> dict:
         sc["interrupt_at"] = rng.randint(5, 120)
     if focus in ("C02", "C03", "C09") and rng.random() < 0.06:
         # an interrupt while launch() is still starting the threads
-        sc["boot_interrupt"] = rng.choice(["inference", "training", "webapi"])
+        sc["boot_interrupt"] = rng.choice(["inference", "training", "webapi", "after:inference", "after:training"])
+    if focus == "C02" and rng.random() < 0.06:
+        # the final save fails (a component's save_state raises in launch()'s epilogue), clock scaled
+        sc["faults"] = [{"comp": rng.choice(["agent", "env"]), "cb": "save", "k": "final"}]
+        sc["time_scale"] = rng.choice([0.5, 2.0, 4.0])
     if focus == "C02" and rng.random() < 0.15 and sc["timed"]:
         sc["max_uptime"] = rng.choice([3.0, 10.0])
         sc["client"] = [c for c in sc["client"] if c[0] != "POST!"]
